@@ -166,6 +166,15 @@ PROPS = {
         "trusted_base": TB_COMMON + ["the enclosure of e^x is an executable oracle whose derivation is stated in Spec/ExpEnclosure.lean; its soundness is not yet a Lean theorem"],
         "assumptions": ASSUME_COMMON,
     },
+    "C14": {
+        "rule": "f32: every exponent field x both signs x mantissas {0, 1, max, 0x400000, random}; f64: every exponent field x both signs x mantissas {0, 1, max, 2^51, random}; random 32/64-bit "
+                "patterns (NaN, infinities, subnormals, +-0 included): the decimal is compared with the model and must denote exactly the IEEE value, and to_f64 of it must return the identical bits "
+                "(-0.0 -> 0.0; f32 widened exactly); to_f64 on decimals of 1..400 digits with exponents -400..400, exact halfway points between adjacent floats, values around f64::MAX, MIN_POSITIVE "
+                "and the smallest subnormal, zeros: judged in exact rational arithmetic from the returned bits (sign, 2^-48 relative, one subnormal step, infinity only near/after MAX). "
+                "Thorough adds all 2^32 f32 patterns against an independent exact formula in-process.",
+        "trusted_base": TB_COMMON + ["IEEE-754 behaviour of the float primitives used inside to_f64 (BigUint::to_f64, powi, str::parse): to_f64 is judged per sampled input, not modelled"],
+        "assumptions": ASSUME_COMMON,
+    },
 }
 
 
